@@ -13,7 +13,7 @@ FLOORS = {'evaluations': 12000, 'distinct': 3000}
 THOROUGH_ROUNDS = 30   # thorough tier: generator passes with derived seeds (runner.gen_rounds)
 EXTRA_CFGS = ['f32']   # the workload is also executed by the force-32bits build of the library; results must not change (runner.standard_check)
 # bulk phase (cxv/bulk.py): random and 00/ff-run keys and messages of 0..96 bytes in two input calls; every call is recomputed by the big-integer model
-BULK = {'quick': [('poly1305', 1 << 20, 1 << 14)], 'thorough': [('poly1305', 1 << 23, 1 << 16)]}
+BULK = {'quick': [('poly1305', 1 << 20, 1 << 14), ('poly1305x', 1 << 20, 1 << 14)], 'thorough': [('poly1305', 1 << 23, 1 << 16), ('poly1305x', 1 << 24, 1 << 16)]}   # poly1305x: near-maximal r and message limbs, 2..6 blocks in ONE input call
 BULK_SECOND_BACKEND = False
 P = (1 << 130) - 5
 CLAMP = 0x0ffffffc0ffffffc0ffffffc0fffffff
